@@ -497,4 +497,122 @@ Proof.
     + destruct (mem id (t_u t)) eqn:EU; [|reflexivity].
       rewrite (inherit_one_ge nx low (g t) id Hid (G4 id Hid EU)) in Hu. discriminate.
 Qed.
+
+(* ---------------------------------------------------------------- the obligation of a publishing tagging job *)
+Definition effects_in (rs : list iresp) (u r a : N) : Prop :=
+  forall x, In x rs -> forall i,
+    (mem i (ir_upd x) = true -> mem i u = true) /\ (mem i (ir_rst x) = true -> mem i r = true) /\
+    (mem i (ir_add x) = true -> mem i a = true).
+
+Definition rho_snap (snap : list (N * N)) : N -> N -> bool := fun x i => mem i (lookupN x snap).
+
+Definition u1_of (ts : tags_t) (snap : list (N * N)) (d : defn) (allS : N) : N :=
+  if existsb (fun r => negb (is0 (sxor (tm r ts) (lookupN r snap)))) (d_subt d) then allS
+  else fold_left (fun a r => union a (sxor (tm r ts) (lookupN r snap))) (d_main d) 0.
+
+Lemma existsb_false_all {A} (f : A -> bool) l : existsb f l = false -> forall x, In x l -> f x = false.
+Proof.
+  induction l; simpl; intros H x []; apply orb_false_iff in H; destruct H; [subst; assumption|auto].
+Qed.
+
+Lemma fold_union0_mem (f : N -> N) l id : mem id (fold_left (fun a r => union a (f r)) l 0) = false ->
+  forall x, In x l -> mem id (f x) = false.
+Proof.
+  rewrite fold_union_mem, mem_0. simpl. intros H x I.
+  exact (existsb_false_all (fun r => mem id (f r)) l H x I).
+Qed.
+
+Lemma publish_obl (k : kf) h0 rs nx n ot pre r d M0 U0 snap res cv mupd mrst madd :
+  let h := rs ++ h0 in
+  let ts := pre ++ (n, ot) :: r in
+  let allS := ones nx in
+  let dirty := negb (is0 mupd && is0 mrst && is0 madd) in
+  let g := fun t => if dirty then invalidate_one k allS mupd mrst madd t else t in
+  let tp := mkTag d res (u1_of ts snap d allS) cv in
+  kf_idonly k = false ->
+  sorted ts -> inv h nx ts -> hnext h = nx -> def_ok d ->
+  (forall x, In x (d_refs d) -> x < n /\ exists tx, tget x ts = Some tx) ->
+  (forall id, mem id res = if mem id U0 then truth h0 d (rho_snap snap) id else mem id M0) ->
+  (forall id, id < hnext h0 -> mem id U0 = false -> mem id M0 = truth h0 d (rho_snap snap) id) ->
+  (forall id, hnext h0 <= id -> id < nx -> mem id madd = true) ->
+  (rs <> [] -> dirty = true) ->
+  effects_in rs mupd mrst madd ->
+  forall id, id < nx ->
+    mem id (t_u (inherit_one allS (inherit allS (map (fun nt => (fst nt, g (snd nt))) r)) (g tp))) = false ->
+    mem id res = truth h (d) (tv h r) id.
+Proof.
+  intros h ts allS dirty g tp K S HI Hn Dok Refs J1 J2 J3 J4 EFF id Hid Hu.
+  set (g' := fun nt : N * tag => (fst nt, g (snd nt))) in *.
+  set (low := inherit allS (map g' r)) in *.
+  assert (forall t, t_def (g t) = t_def t /\ t_live (g t) = t_live t /\ t_m (g t) = t_m t /\
+             forall i, i < nx -> mem i (t_u t) = true -> mem i (t_u (g t)) = true) as Hg.
+  { intros t. unfold g. destruct dirty; [|repeat split; auto].
+    destruct (invalidate_one_rest k allS mupd mrst madd t) as (A & B & C). repeat split; auto.
+    intros i Hi Hm. pose proof (grow_invalidate k nx mupd mrst madd [(0, t)]) as G.
+    inversion G; subst. destruct H2 as (_ & _ & G5). simpl in G5. apply G5; assumption. }
+  assert (Forall2 (grow1 nx) r low) as GR.
+  { eapply grow_trans; [apply grow_map; exact Hg|apply grow_inherit]. }
+  destruct (Hg tp) as (G1 & G2 & G3 & G4). simpl in G1.
+  rewrite inherit_one_u, G1 in Hu. simpl in Hu.
+  destruct (existsb (fun r0 => negb (is0 (tu r0 low))) (d_subt d)) eqn:ES;
+    [unfold allS in Hu; rewrite mem_ones in Hu; [discriminate|exact Hid]|].
+  rewrite fold_union_mem in Hu. apply orb_false_iff in Hu. destruct Hu as [Hu1 Hu2].
+  (* referenced tags: live below n, uncertain only where the inherited uncertainty is *)
+  assert (forall x, In x (d_refs d) -> exists tx, tget x r = Some tx /\ tm x ts = t_m tx /\
+            (forall i, i < nx -> mem i (tu x low) = false -> mem i (t_u tx) = false)) as RX.
+  { intros x Hx. destruct (Refs x Hx) as (Lx & tx & Tx).
+    assert (tget x r = Some tx) as Tr by (rewrite <- Tx; symmetry; apply tget_tail; assumption).
+    exists tx. split; [exact Tr|split; [unfold tm; rewrite Tx; reflexivity|]].
+    intros i Hi Hm. destruct (Forall2_tget (grow1 nx) r low x tx GR) as (tx' & T' & (_ & _ & GU)); [|exact Tr|].
+    { intros a b ((A1 & _ & A3) & _). split; assumption. }
+    unfold tu in Hm. rewrite T' in Hm. simpl in GU.
+    destruct (mem i (t_u tx)) eqn:E; [|reflexivity]. rewrite (GU i Hi E) in Hm. discriminate. }
+  pose proof (inv_app_r h nx pre ((n, ot) :: r) HI) as HI'. simpl in HI'. destruct HI' as (_ & HIr).
+  (* u1: the referenced tags are as in the snapshot *)
+  assert (mem id (t_u tp) = false) as Hup.
+  { destruct (mem id (t_u tp)) eqn:E; [|reflexivity]. rewrite (G4 id Hid E) in Hu1. discriminate. }
+  unfold tp in Hup. simpl in Hup. unfold u1_of in Hup.
+  destruct (existsb (fun r0 => negb (is0 (sxor (tm r0 ts) (lookupN r0 snap)))) (d_subt d)) eqn:EX;
+    [unfold allS in Hup; rewrite mem_ones in Hup; [discriminate|exact Hid]|].
+  (* the masks did not touch id *)
+  assert (dirty = true -> d_sub d = false /\ mem id madd = false /\
+            (d_idonly d = true \/ (mem id mrst = false /\ (d_datatime d = false \/ mem id mupd = false)))) as HD.
+  { intros ED. unfold g in Hu1. rewrite ED in Hu1. unfold invalidate_one, tp in Hu1. simpl in Hu1.
+    destruct (d_sub d); [simpl in Hu1; unfold allS in Hu1; rewrite mem_ones in Hu1; [discriminate|exact Hid]|].
+    split; [reflexivity|]. destruct (d_idonly d).
+    - rewrite K in Hu1. simpl in Hu1. rewrite mem_union in Hu1. apply orb_false_iff in Hu1. destruct Hu1. split; [assumption|left; reflexivity].
+    - simpl in Hu1. destruct (d_datatime d); rewrite ?mem_union in Hu1;
+        repeat (apply orb_false_iff in Hu1; destruct Hu1 as [Hu1 ?]); split; auto. }
+  assert (id < hnext h0) as Hlt.
+  { destruct (N.lt_ge_cases id (hnext h0)) as [L|G]; [exact L|]. pose proof (J3 id G Hid) as A.
+    destruct dirty eqn:ED.
+    - destruct (HD eq_refl) as (_ & B & _). congruence.
+    - unfold dirty in ED. apply negb_false_iff in ED. apply andb_true_iff in ED. destruct ED as [_ ED].
+      apply is0_true in ED. rewrite ED, mem_0 in A. discriminate. }
+  assert (mem id res = truth h0 d (rho_snap snap) id) as R1.
+  { rewrite J1. destruct (mem id U0) eqn:E; [reflexivity|apply J2; assumption]. }
+  assert (truth h d (rho_snap snap) id = truth h0 d (rho_snap snap) id) as R2.
+  { unfold h. destruct rs as [|r0 rs']; [reflexivity|].
+    destruct (HD (J4 ltac:(discriminate))) as (D1 & D2 & D3).
+    apply local_iter; [exact D1|]. intros x Hx. destruct (EFF x Hx id) as (E1 & E2 & E3). split.
+    - destruct (mem id (ir_add x)) eqn:E; [rewrite (E3 eq_refl) in D2; discriminate|reflexivity].
+    - destruct D3 as [D3|(D3 & D4)]; [left; exact D3|right]. split.
+      + destruct (mem id (ir_rst x)) eqn:E; [rewrite (E2 eq_refl) in D3; discriminate|reflexivity].
+      + destruct D4 as [D4|D4]; [left; exact D4|right].
+        destruct (mem id (ir_upd x)) eqn:E; [rewrite (E1 eq_refl) in D4; discriminate|reflexivity]. }
+  rewrite R1, <- R2. apply H_ext.
+  - intros x Hx. destruct (RX x (in_or_app _ _ _ (or_introl Hx))) as (tx & Tr & Tm & TU).
+    unfold rho_snap.
+    pose proof (fold_union0_mem _ _ _ Hup x Hx) as Hs. cbv beta in Hs. rewrite mem_sxor in Hs.
+    apply xorb_eq in Hs. rewrite <- Hs, Tm.
+    apply (inv_lookup h nx r x tx HIr Tr id Hid). apply TU; [exact Hid|].
+    exact (existsb_false_all (fun r0 => mem id (tu r0 low)) _ Hu2 x Hx).
+  - intros x Hx j Hj. destruct (RX x (in_or_app _ _ _ (or_intror Hx))) as (tx & Tr & Tm & TU).
+    unfold rho_snap.
+    pose proof (existsb_false_all _ _ EX x Hx) as Hs. cbv beta in Hs. apply negb_false_iff, is0_true in Hs.
+    apply N.lxor_eq in Hs. rewrite <- Hs, Tm. rewrite Hn in Hj.
+    apply (inv_lookup h nx r x tx HIr Tr j Hj). apply TU; [exact Hj|].
+    pose proof (existsb_false_all _ _ ES x Hx) as H0. cbv beta in H0. apply negb_false_iff, is0_true in H0. rewrite H0. apply mem_0.
+Qed.
+
 End C06.
